@@ -42,7 +42,7 @@ PROBES = ['sixth-rejection', 'begin-out-of-turn', 'no-nul', 'line-too-long', 'au
           'cookie-accepted', 'cookie-wrong-hash-rejected', 'external-accepted',
           'anonymous-accepted', 'challenge-issued', 'cut-between-cr-and-lf',
           'bytes-after-begin-same-read', 'keyring-created', 'keyring-refused',
-          'overlapping-cookie-exchanges']
+          'overlapping-cookie-exchanges', 'cookie-exchange-after-others']
 COMPONENTS = {
     'real': ['txdbus.bus.BusProtocol / txdbus.protocol.BasicDBusProtocol (server role)',
              'txdbus.authentication.BusAuthenticator (tracing subclass on handleAuthMessage)',
@@ -494,8 +494,26 @@ def scenario(ctx):
         hello = b'l\x01\x00\x01\x00\x00\x00\x00\x01\x00\x00\x00\x00\x00\x00\x00'
         peer = RefSaslClient(kind, keyring=os.path.join(home, '.dbus-keyrings'),
                              after_begin=hello if ds.flag(0.5) else b'')
+        crowd = kind == 'COOKIE' and ds.flag(0.3)
+        if crowd:
+            peer.first_match = ds.flag(0.5)
+            # two earlier peers of the same bus: one completes its cookie exchange, one got its
+            # challenge and keeps the bus waiting; only then does the peer under test start
+            sim.probe('cookie-exchange-after-others')
+            for j, k2 in enumerate(('COOKIE', 'COOKIE-silent')):
+                o = RefSaslClient(k2, keyring=os.path.join(home, '.dbus-keyrings'))
+                pj = t_bus.BusProtocol()
+                pj.factory = f
+                cj = net.Connection(sim, 's%d' % (3 + j), None, node, unix=True,
+                                    creds=(4250 + j, 1000, 1000) if creds_present else None)
+                if j == 0:
+                    first_other = (o, cj)
+                cj.attach(o, pj, a_first=False)
+            others_sched = Scheduler(ctx, allow_stall=False)
+            others_sched.run(120)
+            others_sched.drain(100)
         conn.attach(peer, proto, a_first=False)
-        if kind == 'COOKIE' and ds.flag(0.5):
+        if kind == 'COOKIE' and not crowd and ds.flag(0.5):
             # a second peer of the same bus starts a cookie exchange of its own and abandons it
             # (CANCEL / ERROR / close) while the first one is under way
             sim.probe('overlapping-cookie-exchanges')
